@@ -587,16 +587,17 @@ theorem renderIndirect_spec (fmt : R → List UInt8) (pr : List UInt8 → Option
 
 
 /-- a sequence of objects as the printer writes it is a conformant sequence (`SeqOK`) of exactly these values;
-    the gap after the last object belongs to what follows -/
+    the gap after the last object belongs to what follows (`rest` = that gap, then the tail) -/
 theorem renderSeq_spec (fmt : R → List UInt8) (pr : List UInt8 → Option R) (xs : List (Prim R)) (tail : List UInt8) :
     RenderableL fmt pr xs → (∀ x ∈ xs, PdfSyntax.WF x ∧ PdfSyntax.vdepth x ≤ maxDepth) → ∀ (t : Tape),
-    ∃ items rest, (renderSeq fmt xs tail t).1 = seqText items ++ rest ∧ SeqOK pr rest items ∧ items.map (·.1) = xs := by
+    ∃ items rest, (renderSeq fmt xs tail t).1 = seqText items ++ rest ∧ SeqOK pr rest items ∧ items.map (·.1) = xs ∧
+      ∃ g, Gap g ∧ rest = g ++ tail := by
   induction xs with
-  | nil => intro _ _ t; exact ⟨[], tail, by simp [renderSeq, seqText], by simp [SeqOK], rfl⟩
+  | nil => intro _ _ t; exact ⟨[], tail, by simp [renderSeq, seqText], by simp [SeqOK], rfl, [], Gap.nil, rfl⟩
   | cons x xs ih =>
     intro h hwf t
     simp only [RenderableL] at h
-    obtain ⟨items, rest, e, hok, hmap⟩ := ih h.2 (fun y hy => hwf y (by simp [hy])) t
+    obtain ⟨items, rest, e, hok, hmap, g0, hg0, erest⟩ := ih h.2 (fun y hy => hwf y (by simp [hy])) t
     have hx := hwf x (by simp)
     simp only [renderSeq]
     have hgap := gap_spec (needsBnd x && startsRegular (renderSeq fmt xs tail t).1) (renderSeq fmt xs tail t).2
@@ -609,11 +610,11 @@ theorem renderSeq_spec (fmt : R → List UInt8) (pr : List UInt8 → Option R) (
       simpa [needsBnd, hb] using hm
     have key : ∀ (G T : List UInt8), Gap G → (PdfSyntax.needsBnd x = true → Bnd (G ++ (renderSeq fmt xs tail t).1)) →
         Spells pr x T → ∃ items rest, T ++ G ++ (renderSeq fmt xs tail t).1 = seqText items ++ rest ∧ SeqOK pr rest items ∧
-          items.map (·.1) = x :: xs := by
+          items.map (·.1) = x :: xs ∧ ∃ g, Gap g ∧ rest = g ++ tail := by
       intro G T hG hB hT
       cases items with
       | nil =>
-        refine ⟨[(x, T, [])], G ++ rest, ?_, ?_, by simp at hmap; simp [hmap]⟩
+        refine ⟨[(x, T, [])], G ++ rest, ?_, ?_, by simp at hmap; simp [hmap], G ++ g0, gap_append hG hg0, by simp [erest]⟩
         · simp [seqText] at e; simp [seqText, e]
         · simp only [SeqOK, seqText]
           refine ⟨hT, hx.1, hx.2, Gap.nil, by simp, ?_, trivial⟩
@@ -622,7 +623,7 @@ theorem renderSeq_spec (fmt : R → List UInt8) (pr : List UInt8 → Option R) (
           simp [seqText] at e
           simpa [e] using this
       | cons it items' =>
-        refine ⟨(x, T, G) :: it :: items', rest, ?_, ?_, by simp at hmap ⊢; exact hmap⟩
+        refine ⟨(x, T, G) :: it :: items', rest, ?_, ?_, by simp at hmap ⊢; exact hmap, g0, hg0, erest⟩
         · simp only [seqText] at e ⊢; rw [e]; simp
         · simp only [SeqOK]
           refine ⟨hT, hx.1, hx.2, hG, fun hc => by simp at hc, ?_, hok⟩
